@@ -244,14 +244,14 @@ class BaseClient:
         # - self.handlers["*"]["*"]
         handler = None
         if namespace in self.handlers:
-            if event in self.handlers[namespace]:
+            if event != '*' and event in self.handlers[namespace]:
                 handler = self.handlers[namespace][event]
             elif event not in self.reserved_events and \
                     '*' in self.handlers[namespace]:
                 handler = self.handlers[namespace]['*']
                 args = (event, *args)
         if handler is None and '*' in self.handlers:
-            if event in self.handlers['*']:
+            if event != '*' and event in self.handlers['*']:
                 handler = self.handlers['*'][event]
                 args = (namespace, *args)
             elif event not in self.reserved_events and \
